@@ -21,7 +21,7 @@ _TRUST = ['modelled by hand, tied by correspondence only: control flow of the pr
 
 CONFIG = {
     'subs': ['TIter'],
-    'props_modules': ['DmlcModel.Props.C07', 'DmlcModel.Props.C07Witness'],
+    'props_modules': ['DmlcModel.Props.C07', 'DmlcModel.Props.C07Witness', 'DmlcModel.Props.C07Lifecycle'],
     'driver': 'TIter',
     'harness': {'name': 'titer', 'srcs': ['harness/h_titer.cc'], 'args': ['--prop', 'C07']},
     'shrink': False,   # a case is a complete schedule; removing steps from it does not give a schedule
